@@ -564,6 +564,15 @@ _MUTATING = ("append", "extend", "add", "update", "insert", "pop", "remove", "cl
 
 def _self_mutated(fnode):
     out = set()
+    # a local that holds an attribute container (`bits = self.bits`, bound once): changing the local's items changes the attribute
+    binds = {}
+    for s in ast.walk(fnode):
+        if isinstance(s, ast.Assign) and len(s.targets) == 1 and isinstance(s.targets[0], ast.Name):
+            binds.setdefault(s.targets[0].id, []).append(s.value)
+        elif isinstance(s, (ast.AugAssign, ast.For)) and isinstance(s.target, ast.Name):
+            binds.setdefault(s.target.id, []).append(None)
+    alias = dict((k, v[0].attr) for k, v in binds.items() if len(v) == 1 and isinstance(v[0], ast.Attribute)
+                 and isinstance(v[0].value, ast.Name) and v[0].value.id == "self")
     for s in ast.walk(fnode):
         tg = s.targets if isinstance(s, ast.Assign) else ([s.target] if isinstance(s, ast.AugAssign) else [])
         for t in tg:
@@ -573,9 +582,14 @@ def _self_mutated(fnode):
                 if isinstance(x, ast.Subscript) and isinstance(x.value, ast.Attribute) and isinstance(x.value.value, ast.Name) \
                         and x.value.value.id == "self":
                     out.add(x.value.attr)
+                if isinstance(x, ast.Subscript) and isinstance(x.value, ast.Name) and x.value.id in alias:
+                    out.add(alias[x.value.id])
         if isinstance(s, ast.Call) and isinstance(s.func, ast.Attribute) and s.func.attr in _MUTATING and isinstance(s.func.value, ast.Attribute) \
                 and isinstance(s.func.value.value, ast.Name) and s.func.value.value.id == "self":
             out.add(s.func.value.attr)
+        if isinstance(s, ast.Call) and isinstance(s.func, ast.Attribute) and s.func.attr in _MUTATING and isinstance(s.func.value, ast.Name) \
+                and s.func.value.id in alias:
+            out.add(alias[s.func.value.id])
     return out
 
 
@@ -595,6 +609,16 @@ def _self_invalidated(fnode):
                 and isinstance(s.func.value.value, ast.Name) and s.func.value.value.id == "self":
             out.add(s.func.value.attr)
     return out
+
+
+def _lazy_fill_from_self(fnode, C):
+    for st in ast.walk(fnode):
+        if isinstance(st, ast.If) and norm.canon(st.test) in ("(self.%s is None)" % C, "(None is self.%s)" % C, "(not self.%s)" % C):
+            for a in st.body:
+                if isinstance(a, ast.Assign) and any(norm.canon(t) == "self." + C for t in a.targets) \
+                        and any(isinstance(x, ast.Name) and x.id == "self" for x in ast.walk(a.value)):
+                    return True
+    return False
 
 
 def _invalidation_gaps(methods):
@@ -624,7 +648,7 @@ def _invalidation_gaps(methods):
                         if isinstance(t, ast.Subscript) and isinstance(t.value, ast.Attribute) and isinstance(t.value.value, ast.Name) \
                                 and t.value.value.id == "self" and t.value.attr == C:
                             fills = True
-            if fills:
+            if fills and not (mut[n] & D):      # a method that changes D itself and stores C is another invalidator, not the computation
                 reads = set(x.attr for x in ast.walk(f) if isinstance(x, ast.Attribute) and isinstance(x.ctx, ast.Load)
                             and isinstance(x.value, ast.Name) and x.value.id == "self")
                 if reads & D:
@@ -632,8 +656,30 @@ def _invalidation_gaps(methods):
                     D = D & reads
         if not D or not fillers:
             continue
+        # a method also takes care of C when it stores C at all (clear() sets the count to 0), and a private step is covered when every
+        # method of the class that calls it takes care of C (add() calls _resize() and then resets)
+        handles = set(invs)
+        for n, f in methods.items():
+            for s_ in ast.walk(f):
+                if isinstance(s_, (ast.Assign, ast.AugAssign)):
+                    for t in (s_.targets if isinstance(s_, ast.Assign) else [s_.target]):
+                        if isinstance(t, ast.Attribute) and isinstance(t.value, ast.Name) and t.value.id == "self" and t.attr == C:
+                            handles.add(n)
+        callers = {}
+        for n, f in methods.items():
+            for c_ in ast.walk(f):
+                if isinstance(c_, ast.Call) and isinstance(c_.func, ast.Attribute) and isinstance(c_.func.value, ast.Name) \
+                        and c_.func.value.id == "self" and c_.func.attr in methods and c_.func.attr != n:
+                    callers.setdefault(c_.func.attr, set()).add(n)
+        changed = True
+        while changed:
+            changed = False
+            for n in methods:
+                if n not in handles and callers.get(n) and all(c_ in handles for c_ in callers[n]):
+                    handles.add(n)
+                    changed = True
         for n in sorted(methods):
-            if n not in invs and mut[n] & D:
+            if n not in handles and mut[n] & D:
                 out.append((C, sorted(D), invs, n, sorted(mut[n] & D)))
     return out
 
@@ -870,3 +916,24 @@ def c16_r12(ctx):
                            loc=ctx.nodeloc(f, x))
     if n < 1:
         raise AnalysisError("no stack sites found in the parser")
+
+
+@rule("C16", "R13", "K2", "a field prefix reaches every node of the group it is attached to",
+      min_instances=1,
+      clause="GroupNode.set_fieldname() forwards the name to every sub-node unconditionally (the call in the loop over self.nodes is not "
+             "under a test): whether a node takes a field name is that node's own decision (SyntaxNode.set_fieldname returns early for "
+             "has_fieldname False, GroupNode overrides it to recurse), so a filter in the loop cuts nested groups off from `field:(...)`.")
+def c16_r13(ctx):
+    prog = ctx.prog
+    f = prog.method("qparser.syntax.GroupNode", "set_fieldname", inherited=False)
+    ctx.saw(f)
+    ok = False
+    detail = ""
+    for lp in ast.walk(f.node):
+        if isinstance(lp, ast.For) and norm.canon(lp.iter) == "self.nodes" and isinstance(lp.target, ast.Name):
+            v = lp.target.id
+            top = [st for st in lp.body if isinstance(st, ast.Expr) and isinstance(st.value, ast.Call)
+                   and norm.canon(st.value.func) == "%s.set_fieldname" % v]
+            ok = len(top) == 1
+            detail = "loop body: %s" % [norm.stmt_text(s)[:60] for s in lp.body]
+    ctx.ob(f, ok, "every sub-node is handed the field name (the decision to take it is the sub-node's)", detail=detail)
